@@ -10,7 +10,8 @@ import loadrun as L
 PROPERTY = 'C13'
 LEAN_MODULES = ['YatimlModel.Props.C13']
 THEOREMS = ['YatimlModel.C13.' + t for t in [
-    'C13_key_order_recognition', 'C13_typeToTag_kind', 'C13_bool_union_fix', 'C13_unrelated_class']]
+    'C13_key_order_recognition', 'C13_typeToTag_kind', 'C13_bool_union_fix', 'C13_unrelated_class',
+    'C13_kind_interchange_language', 'C13_kind_interchange_recognised']]
 RULE = ('generated (class model, document) pairs x meaning-preserving transformations: keys of class '
         'mappings reordered, the document re-serialised in block / flow / double-quoted / canonical '
         'style with the same node tags, an unrelated class additionally registered, '
